@@ -17,16 +17,21 @@ What this engine adds (the tie to the code and the orders inside the stages):
  * the real binary: every project is run >= 8 times in fresh processes (fresh
    random hasher state each), with the definitions of each file permuted, the
    files given in another order, unreferenced definitions added / removed,
-   and REFERENCED definitions changed (interface, body only, removed, made to
-   fail), and the normalised finding multisets are compared per definition;
+   and REFERENCED definitions changed (outputs, body only, inputs and parameters
+   only, removed, made to fail), and the normalised finding multisets are compared per definition;
  * harness `c17 deps`: the REAL AnalysisRunner, driven as analyze_template does
    but with a recording wrapper between the passes and the runner: which
    definitions every analysis looked up, and what it was answered.  With that
    the check is made per definition and per case: findings may change only if
-   a looked-up (or anonymously instantiated) definition changed, and findings
-   grouped by (own source text, answers to the lookups) must coincide — the
-   assumption built into Model.RunnerSrc.  For small projects ALL analysis
-   orders are driven through the real runner's caches;
+   a looked-up (or anonymously instantiated) definition changed - and when only
+   a looked-up one changed, only the findings of the passes that RECEIVE the
+   context (read from get_analysis_passes on every run: unused_output_signal,
+   CS0018) - and findings grouped by (own source text, answers to the lookups)
+   must coincide — the assumption built into the type of Model.RunnerSrc.s_pass.
+   How many groups can tell is recorded (function_of_source_and_answers_groups)
+   and fewer than 5 discriminating ones is a violation; a panic of the runner
+   under `deps` is a failure of that project, not a skipped check.  For small
+   projects ALL analysis orders are driven through the real runner's caches;
  * harness `c17 orders`: the complete pipeline of main.rs repeated in process
    in fresh threads (= fresh hasher keys for every HashMap of every stage), so
    that many more hash states are sampled per case than processes can be
@@ -268,7 +273,10 @@ def variants(ctx, st, k, extra_same=0):
     mains = " ".join(f["main"] or "" for f in st["files"])
     kinds = ["referenced-interface", "referenced-body", "referenced-removed", "referenced-broken"]
     rng.shuffle(kinds)
-    for kind in kinds[:2] if cands else []:
+    # ... and always the variant in which ONLY the inputs and parameters of a referenced template change: what a lookup of it
+    # shows to unused_output_signal (its output signals and their dimensions) stays the same, so a definition that looks it up
+    # through a declared component stays in the same (own text, answers) group of check (3) and must keep ALL its findings
+    for kind in (kinds[:2] + ["referenced-inputs"]) if cands else []:
         target = rng.choice(cands)
         s5 = copy.deepcopy(st)
         for f in s5["files"]:
@@ -282,6 +290,10 @@ def variants(ctx, st, k, extra_same=0):
                     nd.append((d[0], d[1], edit_body(d[2], "var zq9 = 0; if (1 == 1) { zq9 = 1; } else { zq9 = 2; }")))
                 elif kind == "referenced-broken":
                     nd.append((d[0], d[1], edit_body(d[2], "var yy9; var zy9 = yy9 + 1;")))
+                elif kind == "referenced-inputs":
+                    t2 = re.sub(r"(template\s+%s\s*\()([^)]*)\)" % re.escape(target),
+                                lambda mm: mm.group(1) + (mm.group(2) + ", " if mm.group(2).strip() else "") + "zp9)", d[2], count=1)
+                    nd.append((d[0], d[1], edit_body(t2, "signal input zi9; signal input zj9[2]; zi9 === zp9;")))
                 elif re.search(r"\b%s\b" % re.escape(target), mains):
                     nd.append(d)         # the main component's template is not removed
             f["defs"] = nd
@@ -339,10 +351,46 @@ def miss_probability(n, q):
 # the check
 # ---------------------------------------------------------------------------
 
-REF_KINDS = ("referenced-interface", "referenced-body", "referenced-removed", "referenced-broken")
+REF_KINDS = ("referenced-interface", "referenced-body", "referenced-removed", "referenced-broken", "referenced-inputs")
 
 
-def compare(ref, got, kind, A, B, infl_a, infl_b):
+def context_dependent_ids(repo):
+    """The report ids whose findings can depend on OTHER definitions, read from the current source: the entries of
+    program_analysis/src/lib.rs get_analysis_passes that do not ignore their AnalysisContext argument (every entry that is not
+    a closure `|_, cfg| ...`), the ReportCode variants their modules construct, and the ids report_code.rs gives those variants.
+    -> (sorted ids, {module: [ids]}).  Raises BuildError when the source no longer has the expected shape."""
+    src = open(os.path.join(repo, "program_analysis", "src", "lib.rs"), encoding="utf-8").read()
+    m = re.search(r"pub fn get_analysis_passes\(\)[^{]*\{\s*vec!\[(.*?)\n    \]", src, re.S)
+    if not m:
+        raise common.BuildError("C17: get_analysis_passes of program_analysis/src/lib.rs has an unexpected shape", "")
+    body = re.sub(r"//[^\n]*", "", m.group(1))
+    entries = [e.strip() for e in re.findall(r"Box::new\((.*?)\),\s*(?=Box::new|$)", body, re.S)]
+    if len(entries) < 5 or len(entries) != body.count("Box::new("):
+        raise common.BuildError("C17: cannot cut the entries of get_analysis_passes (%d cut, %d Box::new)"
+                                % (len(entries), body.count("Box::new(")), "")
+    codes = open(os.path.join(repo, "program_structure", "src", "program_library", "report_code.rs"), encoding="utf-8").read()
+    idm = re.search(r"pub fn id\(&self\) -> String \{(.*?)\n    \}", codes, re.S)
+    id_of = dict(re.findall(r"(\w+) => \"(\w+)\"", idm.group(1))) if idm else {}
+    mods = {}
+    for e in entries:
+        if re.match(r"\|\s*_\s*,\s*\w+\s*\|", e):
+            continue                                  # the closure drops the context
+        mm = re.findall(r"\b([a-z_0-9]+)::[a-z_0-9]+", e)
+        if not mm:
+            raise common.BuildError("C17: analysis pass entry `%s` names no module" % e[:80], "")
+        for mod in mm:
+            path = os.path.join(repo, "program_analysis", "src", mod + ".rs")
+            text = open(path, encoding="utf-8").read()
+            text = text.split("#[cfg(test)]")[0]
+            variants = sorted(set(re.findall(r"ReportCode::(\w+)", text)))
+            ids = [id_of.get(v) for v in variants]
+            if not variants or None in ids:
+                raise common.BuildError("C17: report codes of pass module %s not found (%s)" % (mod, variants), "")
+            mods[mod] = ids
+    return sorted({i for v in mods.values() for i in v}), mods
+
+
+def compare(ref, got, kind, A, B, infl_a, infl_b, ctx_ids=("CS0018",), stats=None):
     """Compares the findings of a base project (ref) and a variant (got).
     A, B: {(kind, name): (file, text)}; infl_x: {(kind, name): set of names that may influence it}.
     -> (list of owners whose findings differ although nothing they reference changed,
@@ -369,10 +417,24 @@ def compare(ref, got, kind, A, B, infl_a, infl_b):
             touched.add(o)
     for o in sorted(common_defs):
         a, b = ref.get(o, []), got.get(o, [])
-        if o in touched:
+        if o in status_touched:
+            # its own text, or the text of a template it instantiates ANONYMOUSLY (the desugarer copies that template's
+            # signals into its body) changed: every finding may change
             allowed += 1
             if a != b:
                 moved += 1
+        elif o in touched:
+            # only the answer to a lookup can have changed: only the findings of the passes that receive the context
+            # (ctx_ids: unused_output_signal) may change; every other finding must stay
+            allowed += 1
+            if a != b:
+                moved += 1
+            if stats is not None:
+                stats["lookup_only"] = stats.get("lookup_only", 0) + 1
+                if [x for x in a if x[0] not in ctx_ids]:
+                    stats["lookup_only_with_other_findings"] = stats.get("lookup_only_with_other_findings", 0) + 1
+            if [x for x in a if x[0] not in ctx_ids] != [x for x in b if x[0] not in ctx_ids]:
+                bad.append(o)
         elif a != b:
             bad.append(o)
     # parse-stage findings (they include the desugarer's per-definition errors)
@@ -393,8 +455,38 @@ def compare(ref, got, kind, A, B, infl_a, infl_b):
     return bad, moved, allowed
 
 
+def compare_self_test():
+    """compare() on hand-made data: a definition whose looked-up (not anonymously instantiated) template changed may change in
+    CS0018 only.  -> list of what went wrong."""
+    T0, T1 = ("f.circom", "template T(n) { signal output a; }"), ("f.circom", "template T(n) { signal output a; signal output b; }")
+    U = ("f.circom", "template U(n) { component k = T(1); }")
+    W = ("f.circom", "template W(n) { signal x <== T(1)(); }")
+    A = {("template", "T"): T0, ("template", "U"): U, ("template", "W"): W}
+    B = {("template", "T"): T1, ("template", "U"): U, ("template", "W"): W}
+    infl = {("template", "U"): {"T"}, ("template", "W"): {"T"}, ("template", "T"): set()}
+    f18 = ("CS0018", "warning", "m", (), ())
+    f05 = ("CS0005", "warning", "m", (), ())
+    out = []
+    bad, moved, allowed = compare({("template", "U"): [f05]}, {("template", "U"): [f05, f18]}, "referenced-interface", A, B, infl, infl)
+    if bad or moved != 1:
+        out.append("a CS0018 change of a definition whose looked-up template changed is not allowed: %s" % bad)
+    bad, _, _ = compare({("template", "U"): [f05]}, {("template", "U"): [f18]}, "referenced-interface", A, B, infl, infl)
+    if ("template", "U") not in bad:
+        out.append("a CS0005 change of a definition whose looked-up template changed is not reported")
+    bad, _, _ = compare({("template", "W"): [f05]}, {("template", "W"): []}, "referenced-interface", A, B, infl, infl)
+    if bad:
+        out.append("a definition that instantiates the changed template anonymously is not exempt: %s" % bad)
+    B2 = dict(A)
+    B2[("template", "X")] = ("f.circom", "template X(n) { signal output a; }")
+    bad, _, _ = compare({("template", "U"): [f05]}, {("template", "U"): []}, "definitions-added", A, B2, infl, infl)
+    if ("template", "U") not in bad:
+        out.append("a change of a definition none of whose references changed is not reported")
+    return out
+
+
 def run(ctx, proofs):
     quick = ctx.tier == "quick"
+    ctx_ids, ctx_mods = context_dependent_ids(common.REPO)
     cli = common.build_cli()
     common.build_harness("c17")
     base = e2e.scratch_dir("C17")
@@ -487,6 +579,21 @@ def run(ctx, proofs):
                                             % (" ".join(o), perms[0], str(first.get(o))[:300], perm, str(got.get(o))[:300])})
                     break
 
+        # a panic (or an unusable answer) of the real runner under `c17 deps` leaves no lookups: checks (2) and (3) cannot be
+        # made for that project, so it is a failure, never a silent skip
+        deps_unusable = 0
+        for i in distinct:
+            rs = deps[i].get("runs", [])
+            if i in perm_cases and (len(rs) != len(perm_cases[i]) or any(r.get("panic") for r in rs)):
+                deps_unusable += 1
+                continue                  # reported by (1)
+            if not rs or rs[0].get("panic") or "defs" not in rs[0]:
+                deps_unusable += 1
+                failing.append({"project": projects[i].describe(), "kind": "deps",
+                                "what": "the real runner, driven as analyze_template / analyze_function drive it (harness `c17 deps`), %s: "
+                                        "the lookups of this project are not known and its definitions cannot be checked"
+                                        % ("panicked" if rs and rs[0].get("panic") else "gave no answer (%s)" % str(deps[i])[:200])})
+
         infl_cache = {}
 
         def influencers(i):
@@ -512,6 +619,9 @@ def run(ctx, proofs):
         order_hist = {}
         memo = {}
         memo_keys = 0
+        members = {}                 # key of check (3) -> {distinct project content: texts of the looked-up definitions}
+        cmp_stats = {}
+        refs_memo = {}
         shapes_seen = 0
         for k, idxs in groups.items():
             ref_i = idxs[0]
@@ -582,7 +692,8 @@ def run(ctx, proofs):
                         diff = [o for o in sorted(set(fa) | set(fb)) if fa.get(o, []) != fb.get(o, [])]
                         moved = allowed = 0
                     else:
-                        diff, moved, allowed = compare(fa, fb, kind, A, B, infl_a, infl_b)
+                        diff, moved, allowed = compare(fa, fb, kind, A, B, infl_a, infl_b, ctx_ids,
+                                                       cmp_stats if fam == "binary" else None)
                     if fam == "binary":
                         moved_total += moved
                         allowed_total += allowed
@@ -590,8 +701,9 @@ def run(ctx, proofs):
                         o = diff[0]
                         a, b = fa.get(o, []), fb.get(o, [])
                         rec = {"project": projects[ref_i].describe(), "variant": projects[i].describe(), "kind": kind,
-                               "what": "findings of %s differ between two runs (%s, %s) although no definition it looks up or instantiates "
-                                       "changed: only in the first %s, only in the second %s"
+                               "what": "findings of %s differ between two runs (%s, %s) although no definition it instantiates anonymously "
+                                       "changed and either no definition it looks up changed or the findings are not those of a pass that "
+                                       "receives the context: only in the first %s, only in the second %s"
                                        % (" ".join(o), kind, fam, [x for x in a if x not in b][:2], [x for x in b if x not in a][:2])}
                         if is_corpus and projects[i].meta.get("known") and kf:
                             known_hit = kf[0]["what"]
@@ -606,6 +718,19 @@ def run(ctx, proofs):
                         anon = tuple((n, B.get(("template", n), (None, None))[1]) for n in anon_callees(text))
                         key = (k, fname, o, text, lk_b[o]["lookups"], anon)
                         val = (got.get(o, []), lk_b[o]["passes"])
+                        # (3b) [s_refs] of the model: WHICH templates are looked up, in which order, is a function of the
+                        # definition's own source (and of the sources it instantiates anonymously)
+                        rkey = (k, fname, o, text, anon)
+                        names = tuple((l[0], l[1]) for l in lk_b[o]["lookups"])
+                        if rkey not in refs_memo:
+                            refs_memo[rkey] = (names, i)
+                        elif refs_memo[rkey][0] != names:
+                            broken.append({"project": projects[refs_memo[rkey][1]].describe(), "variant": projects[i].describe(), "kind": kind,
+                                           "what": "the lookups made while %s is analysed differ between two projects in which its source "
+                                                   "text is the same: %s vs %s; Model.RunnerSrc takes s_refs as a function of the "
+                                                   "definition's own source" % (" ".join(o), refs_memo[rkey][0], names)})
+                        looked = tuple(sorted((n, (B.get(("template", n)) or (None, None))[1]) for n in {l[1] for l in lk_b[o]["lookups"]}))
+                        members.setdefault(key, {})[rep_of[i]] = looked
                         if key not in memo:
                             memo[key] = (val, i)
                             memo_keys += 1
@@ -638,6 +763,20 @@ def run(ctx, proofs):
                               "looked-up template present %s / absent %s, lookups %s / %s" % (" ".join(own), ids[0], ids[1], looked[0], looked[1]),
                               {"broken": "C17_referenced_definition_matters (coq/props/C17.v) vs unused_output_signal.rs",
                                "project": wp[0].describe(), "variant": wp[1].describe(), "kind": "witness"}, no_input=True)
+        # ---- how much check (3) can see: a group = one (structure, file, definition, own text, lookup answers, anonymously
+        # instantiated texts); its size = number of DIFFERENT project contents it was met in
+        sizes = {}
+        g_multi = g_disc = g_strong = 0
+        for key, mem in members.items():
+            n = len(mem)
+            sizes[n] = sizes.get(n, 0) + 1
+            if n >= 2:
+                g_multi += 1
+                if key[4]:                              # the definition looks something up
+                    g_disc += 1
+                    if len(set(mem.values())) >= 2:     # ... and the source of a looked-up definition differs inside the group
+                        g_strong += 1
+        self_test = compare_self_test()
         if known_hit:
             ctx.known_finding("C17-duplicate-definition-order", known_hit)
         for f in failing[:5]:
@@ -665,6 +804,18 @@ def run(ctx, proofs):
                 degenerate.append("only %d definitions changed their findings through a changed referenced definition" % moved_total)
             if perm_projects < 5:
                 degenerate.append("only %d small projects were driven through all analysis orders" % perm_projects)
+            if g_disc < 5:
+                degenerate.append("only %d groups of check (3) (same source text and same lookup answers) hold a definition that looks "
+                                  "something up and was met in two different projects: the interface assumption of Model.RunnerSrc "
+                                  "(s_pass : list answer -> list report) was not evaluated" % g_disc)
+            if g_strong < 5:
+                degenerate.append("only %d groups of check (3) contain two projects in which the SOURCE of a looked-up definition "
+                                  "differs while the answer to the lookup is the same" % g_strong)
+            if cmp_stats.get("lookup_only_with_other_findings", 0) < 5:
+                degenerate.append("only %d definitions with findings of lookup-independent passes had a looked-up definition changed"
+                                  % cmp_stats.get("lookup_only_with_other_findings", 0))
+            if self_test:
+                degenerate.append("compare() self-test: " + "; ".join(self_test))
             if degenerate:
                 ctx.violation("generator degenerate: " + "; ".join(degenerate), {"broken": "project generator of lib/props/C17.py"}, no_input=True)
         kinds = {}
@@ -691,6 +842,24 @@ def run(ctx, proofs):
             "definitions_allowed_to_change": allowed_total,
             "definitions_changed_through_a_changed_reference": moved_total,
             "function_of_source_and_answers_keys": memo_keys,
+            "function_of_source_and_answers_groups": {
+                "rule": "group = (structure, file, definition, own source text, lookups with their answers, texts of the anonymously "
+                        "instantiated templates); size = number of different project contents the group was met in; discriminating = "
+                        "size >= 2 and the definition looks something up; strongly discriminating = moreover the source text of a "
+                        "looked-up definition differs between two members (same answer from different callee sources)",
+                "groups_by_size": {str(k): v for k, v in sorted(sizes.items())},
+                "groups_met_in_two_or_more_projects": g_multi,
+                "discriminating_groups": g_disc,
+                "strongly_discriminating_groups": g_strong,
+                "minimum_required": 5,
+            },
+            "lookup_sequences_checked_to_be_a_function_of_the_source": len(refs_memo),
+            "deps_runs_unusable": deps_unusable,
+            "context_dependent_report_ids": {"ids": ctx_ids, "modules": ctx_mods,
+                                             "source": "program_analysis/src/lib.rs get_analysis_passes + report_code.rs, read on every run"},
+            "definitions_touched_through_a_lookup_only": cmp_stats.get("lookup_only", 0),
+            "of_which_have_findings_of_lookup_independent_passes": cmp_stats.get("lookup_only_with_other_findings", 0),
+            "compare_self_test_failures": self_test,
             "all_analysis_orders_small_projects": perm_projects, "analysis_orders_driven_through_real_runner": perm_orders,
             "relative_iteration_order_of_two_templates_per_hash_state": order_hist,
             "hash_state_samples_per_case": {"fresh_processes": nproc_min, "in_process_fresh_threads": reps},
@@ -715,8 +884,11 @@ def run(ctx, proofs):
             "desugaring loops are covered by the theorems over Model.Runner / Model.RunnerSrc / Model.Desugar only",
             "orders inside the other stages (dominator-tree children, taint maps, declaration maps, SSA version numbers) are outside the "
             "models: their irrelevance for the findings is observed by the repeated runs only (bound above)",
-            "Model.RunnerSrc: that the pass results of a definition are a function of its own source and of the answers to its lookups is "
-            "checked on the explored cases (findings grouped by source text and answers coincide), not proved about the Rust passes",
+            "Model.RunnerSrc: that the pass results of a definition are a function of its own source and of the answers to its lookups "
+            "(the type of s_pass; the theorems C17_findings_unchanged_by_* and the whole-project ones are consequences of it) is checked on "
+            "the explored cases (findings grouped by source text and answers coincide; %d discriminating groups, %d of them with a "
+            "looked-up definition whose source differs), not proved about the Rust passes; an answer is summarised as the harness "
+            "summarises it (output signal names with their numbers of dimensions)" % (g_disc, g_strong),
             "normalisation: the project directory in messages, generated names <name>_<line>_<offset>, and positions (labelled source text "
             "is compared instead of line numbers)",
         ]
